@@ -167,10 +167,14 @@ pub fn family(tier: Tier) -> Vec<Config> {
                             (Some(3), false, false),
                             // `which_scenario` applied after `init_tracing` (flagged by conc Some(5))
                             (Some(5), false, false),
+                            // builder limit 1 overridden by `--concurrency 2` (flagged by conc Some(7))
+                            (Some(7), false, false),
                         ] {
                             let clone_alive = conc == Some(3);
                             let which_late = conc == Some(5);
-                            if (outer || warn || clone_alive || which_late) && (gates == GateMode::All || fault != "none") {
+                            let cli_over = conc == Some(7);
+                            let conc = if cli_over { Some(1) } else { conc };
+                            if (outer || warn || clone_alive || which_late || cli_over) && (gates == GateMode::All || fault != "none") {
                                 continue;
                             }
                             let mut cfg = Config::default();
@@ -192,6 +196,7 @@ pub fn family(tier: Tier) -> Vec<Config> {
                             cfg.before = hooks;
                             cfg.after = hooks;
                             cfg.conc_builder = Some(conc);
+                            cfg.conc_cli = cli_over.then_some(2);
                             cfg.plan.gates = gates.clone();
                             cfg.plan.logs_before = lb;
                             cfg.plan.logs_after = la;
@@ -219,11 +224,12 @@ pub fn family(tier: Tier) -> Vec<Config> {
                             }
                             cfg.max_execs = if tier == Tier::Quick { 4_000 } else { 400_000 };
                             cfg.name = format!(
-                                "trace/n{nsc}|lb{lb}la{la}|r{retry}|{fault}|g{gates:?}|c{conc:?}|hooks{}|outer{}|warn{}|clone{}",
+                                "trace/n{nsc}|lb{lb}la{la}|r{retry}|{fault}|g{gates:?}|c{conc:?}|hooks{}|outer{}|warn{}|clone{}|cliover{}",
                                 u8::from(hooks),
                                 u8::from(outer),
                                 u8::from(warn),
-                                u8::from(clone_alive)
+                                u8::from(clone_alive),
+                                u8::from(cli_over)
                             );
                             out.push(cfg);
                         }
